@@ -46,11 +46,14 @@ def cmp_scenarios(draw):
                  for i in range(nobj)]
         events = first + [dict(e, obj=e['obj'] % nobj) for e in events[:draw(st.integers(0, 10))]]
     breaks = draw(st.lists(st.floats(0, 30).map(lambda x: round(x, 2)), max_size=3))
+    # some objects are deleted after their last change, and the stream may end (resumably) right after any event - a deletion included
+    deletes = draw(st.lists(st.fixed_dictionaries({'obj': st.integers(0, 3), 'gap': st.sampled_from([0.0, 0.1, 1.0]),
+                                                   'break_after': st.sampled_from([None, None, 0.0, 0.05])}), max_size=2))
     # a cancellation at an arbitrary instant, or right after the arrival of one of the events (a backlog is likely then)
     cancel = draw(st.one_of(st.none(), st.none(), st.floats(0, 40).map(lambda x: round(x, 3)),
                             st.builds(lambda k, eps: {'after_event': k, 'eps': eps}, st.integers(0, 39), st.sampled_from([0.0, 1e-6, 0.01, 0.2]))))
     return {'mode': 'cmp', 'idle': idle, 'limit': limit, 'nobj': nobj, 'exit_timeout': draw(st.sampled_from([0.5, 2.0, 10.0, 10.0])),
-            'events': events, 'breaks': breaks, 'cancel': cancel, 'list_dur': draw(st.sampled_from([0.0, 0.0, 0.3]))}
+            'events': events, 'breaks': breaks, 'cancel': cancel, 'list_dur': draw(st.sampled_from([0.0, 0.0, 0.3])), 'deletes': deletes}
 
 
 @st.composite
@@ -151,6 +154,12 @@ def run_cmp(sc, res):
             world.at(t, lambda n=n, k=k: cluster.edit(KEX, 'default', n, lambda b: b['spec'].update(n=k)))
         for t in sc['breaks']:
             world.at(t0 + t, lambda: cluster.break_watches(rkey=KEX))
+        for dl in sc.get('deletes') or []:
+            n = names[dl['obj'] % len(names)]
+            t_del = max([p[0] for p in plan if p[1] == n] + [t0]) + dl['gap']
+            world.at(t_del, lambda n=n: cluster.delete(KEX, 'default', n))
+            if dl['break_after'] is not None:
+                world.at(t_del + dl['break_after'], lambda: cluster.break_watches(rkey=KEX))
         t_cancel = None
         if isinstance(sc['cancel'], dict):
             t_cancel = plan[sc['cancel']['after_event'] % len(plan)][0] + sc['cancel']['eps']
@@ -190,6 +199,18 @@ def run_cmp(sc, res):
         waited_for_slot = False
         near_expiry = False
         backlog_at_cancel = False
+        # (0) no event of the cluster's history is processed twice: a (type, version) the API emitted once reaches the processor at most
+        #     once, whatever the client does to get its stream back (a list entry - type None - may legitimately repeat a version)
+        for uid, pl in processed.items():
+            seen_events = {}
+            for r in pl:
+                if r['type'] is not None:
+                    seen_events.setdefault((r['type'], r['rv']), []).append(r['t0'])
+            twice = {k: v for k, v in seen_events.items() if len(v) > 1}
+            if twice:
+                res.fail('C01/processed-twice', f'{uid}: the event(s) {sorted(twice.items())[:3]} were processed more than once (reconnects at {sc["breaks"]}, deletions {sc.get("deletes")})')
+            if any(r['type'] == 'DELETED' for r in pl):
+                res.label('deletion-processed')
         for uid, dl in delivered.items():
             pl = processed.get(uid, [])
             got = [(r['type'], r['rv']) for r in pl]
